@@ -16,6 +16,7 @@ import QuaiVerif.Driver.Reorg
 import QuaiVerif.Driver.Crash
 import QuaiVerif.Driver.HeaderRules
 import QuaiVerif.Driver.Seal
+import QuaiVerif.Driver.Pool
 /- qvdriver: `qvdriver <area>` reads protocol lines on stdin, answers one line per line. -/
 open QuaiVerif
 
@@ -35,6 +36,7 @@ def main (args : List String) : IO UInt32 := do
   | ["utxo"] => ioLoop Utxo.step stdin stdout {}; return 0
   | ["mem"] => ioLoop Mem.step' stdin stdout (); return 0
   | ["c11"] => ioLoop Crash.step stdin stdout (); return 0
+  | ["c19"] => ioLoop Pool.step stdin stdout {}; return 0
   | ["c08"] => ioLoop Seal.step stdin stdout (); return 0
   | ["c09"] => ioLoop HeaderRules.step stdin stdout HeaderRules.Acc.genesis; return 0
   | ["c10"] => ioLoop Reorg.step stdin stdout {}; return 0
